@@ -100,3 +100,38 @@ def shape(node):
     if hasattr(node, '__dict__'):
         return (type(node).__name__, {k: shape(v) for k, v in vars(node).items() if 'span' not in k and not k.startswith('_')})
     return repr(node)
+
+
+def typecheck(fe, text, **options):
+    """Parse and typecheck a program by interpretation: the typed Program, or ('error', class name, message)."""
+    astns = fe.it.load('hidc/ast/__init__.py')
+    prog = fe.parse(text)
+    if isinstance(prog, tuple) and prog and prog[0] == 'error':
+        return prog
+    env = astns['Environment'].empty(**options)
+    try:
+        return prog.evaluate(env)
+    except fe.CompilerError as e:
+        return ('error', type(e).__name__, str(e))
+
+
+def walk_nodes(node, seen=None):
+    """Every object of an interpreted tree (dataclass fields, tuples, lists), parents first."""
+    import dataclasses as dc
+    if seen is None:
+        seen = set()
+    if id(node) in seen:
+        return
+    if isinstance(node, (tuple, list)):
+        for x in node:
+            yield from walk_nodes(x, seen)
+        return
+    if dc.is_dataclass(node) and not isinstance(node, type):
+        seen.add(id(node))
+        yield node
+        for f in dc.fields(node):
+            try:
+                v = getattr(node, f.name)
+            except Exception:       # noqa: BLE001
+                continue
+            yield from walk_nodes(v, seen)
